@@ -23,6 +23,7 @@ import (
 	"go/token"
 	"go/types"
 	"sort"
+	"strconv"
 	"strings"
 )
 
@@ -193,6 +194,9 @@ func sortOf(t types.Type) string {
 				return "Slice"
 			}
 		}
+		return "Ref" // any other pointer: an opaque identity (0 = nil)
+	case *types.Interface, *types.Chan, *types.Signature:
+		return "Ref"
 	case *types.Map:
 		k, ok1 := u.Key().Underlying().(*types.Basic)
 		v, ok2 := u.Elem().Underlying().(*types.Basic)
@@ -264,6 +268,9 @@ func (c *semCtx) symbol(name string, t types.Type) semVal {
 			c.sh.assert(fmt.Sprintf("(and (>= %s_len 0) (<= %s_len %d))", n, n, semMaxLen))
 		}
 		return semVal{Sort: "Map", Len: n + "_len", At: func(i string) string { return "(" + get + " " + i + ")" }}
+	case "Ref":
+		c.sh.declare(n+"_ref", "Int")
+		return semVal{Sort: "Ref", T: n + "_ref"}
 	case "Time":
 		first := c.sh.decls[n+"_sec"] == ""
 		c.sh.declare(n+"_sec", "Int")
@@ -473,6 +480,18 @@ func (c *semCtx) binary(e *ast.BinaryExpr) semVal {
 // nilness returns the term "v is nil" for slices, maps and pointers to arrays.
 func (c *semCtx) nilness(v semVal) (string, bool) {
 	switch v.Sort {
+	case "Ref":
+		return "(= " + v.T + " 0)", true
+	case "Bytes":
+		if strings.HasPrefix(v.T, "v_") && !strings.ContainsAny(v.T, " (") {
+			n := v.T + "_isnil"
+			first := c.sh.decls[n] == ""
+			c.sh.declare(n, "Bool")
+			if first {
+				c.sh.assert("(=> " + n + " (= (str.len " + v.T + ") 0))")
+			}
+			return n, true
+		}
 	case "Slice", "Map":
 		if v.Nil != "" {
 			return v.Nil, true
@@ -509,6 +528,25 @@ func (c *semCtx) binop(op token.Token, x, y semVal) semVal {
 	}
 	if x.Sort == "Bytes" && y.Sort == "String" || x.Sort == "String" && y.Sort == "Bytes" {
 		return c.unsupported("mixed string/bytes operands")
+	}
+	isIntLit := func(v semVal) bool {
+		if v.Sort != "Int" {
+			return false
+		}
+		t := strings.TrimSuffix(strings.TrimPrefix(v.T, "(- "), ")")
+		_, err := strconv.Atoi(t)
+		return err == nil
+	}
+	toFloat := func(v semVal) semVal {
+		if strings.HasPrefix(v.T, "(- ") {
+			return semVal{Sort: "Float", T: "(fp.neg ((_ to_fp 11 53) RNE " + strings.TrimSuffix(strings.TrimPrefix(v.T, "(- "), ")") + ".0))"}
+		}
+		return semVal{Sort: "Float", T: "((_ to_fp 11 53) RNE " + v.T + ".0)"}
+	}
+	if x.Sort == "Float" && isIntLit(y) {
+		y = toFloat(y) // an untyped integer constant next to a float operand
+	} else if y.Sort == "Float" && isIntLit(x) {
+		x = toFloat(x)
 	}
 	if x.Sort != y.Sort {
 		return c.unsupported("operands of sorts %s and %s", x.Sort, y.Sort)
@@ -573,7 +611,7 @@ func (c *semCtx) binop(op token.Token, x, y semVal) semVal {
 		case token.GEQ:
 			return semVal{Sort: "Bool", T: "(str.<= " + y.T + " " + x.T + ")"}
 		}
-	case "Bool":
+	case "Bool", "Ref":
 		switch op {
 		case token.EQL:
 			return b("=")
@@ -873,7 +911,7 @@ func valEq(a, b semVal, q string) (string, bool) {
 		return "", false
 	}
 	switch a.Sort {
-	case "Int", "String", "Bytes", "Bool", "Float":
+	case "Int", "String", "Bytes", "Bool", "Float", "Ref":
 		return "(= " + a.T + " " + b.T + ")", true
 	case "Unit":
 		return "true", true
